@@ -53,9 +53,6 @@ CLAIMED["C01"] = dict(
 
 PLANNED = []
 NA_FIXED = {
- "C06": "grid-independent convergence factor: a measured real-valued "
-        "contraction rate against thresholds; no discrete state or "
-        "transition to model in TLA+ (TLC has no reals)",
 }
 
 CLAIMED["C12"] = dict(
@@ -467,7 +464,34 @@ CLAIMED["C08"] = dict(
        "'input' only, in-memory, 8^3 grids.",
   ref="DESIGN.md section 5 (C07/C08)", engine="tlc-senspipe")
 
+CLAIMED["C06"] = dict(
+  category="exploration",
+  technique="TLA+ model of stand-alone multigrid as an iteration on the "
+            "residual (Converge.tla: contraction below the cap per cycle => "
+            "convergence within Need = ceil(log tol / log cap) cycles, "
+            "independent of the number of unknowns) checked by TLC + TLC "
+            "trace validation of recorded emg3d.solve runs on the reference "
+            "problems (TraceConverge.tla), one event per fine-grid cycle",
+  text="Partial claim.  Every fine-grid cycle of every recorded solve "
+       "(uniform grids of one domain with 8, 16, 32, 64 cells per direction "
+       "- 64 for a sample in the quick tier -, cycles F/V/W, homogeneous "
+       "isotropic and triaxial 1:2:3 media, frequency and Laplace domain, "
+       "1..3 smoothing steps; thorough: also non-cubic 2^a x 3 2^b x 5 2^c "
+       "shapes) is classified by the harness from info['error_at_cycle'] as "
+       "contracting below the cap of its medium and smoothing count or not "
+       "(caps = 1.5 x the worst factor measured at 64^3 on the pinned tree); "
+       "TLC evaluates EveryCycleContracts, BoundedCycles, MustConverge, "
+       "NoGiveUp and HIndep (worst factor <= 1.5 x the factor of the same "
+       "configuration at 16^3 + 0.01, at most two more cycles) on every "
+       "trace.",
+  note="Trusted: TLC, the measured caps (constants of the harness with their "
+       "provenance), deterministic inputs.  The convergence factors are "
+       "measurements, not modelled.",
+  ref="DESIGN.md section 5 (C06)", engine="tlc-converge")
+
 ENGINES = [
+ dict(name="tlc-converge", path="spec/Converge.tla", serves_properties=["C06"],
+      kind_free_text="TLA+ spec + TLC exhaustive + TLC trace validation"),
  dict(name="tlc-senspipe", path="spec/SensPipe.tla",
       serves_properties=["C07", "C08"],
       kind_free_text="TLA+ spec + TLC exhaustive + TLC trace validation"),
